@@ -68,7 +68,9 @@ Record beh := mkBeh {
   bh_fork : bool;              (* has a child of its own in the group, immune to TERM/INT *)
   bh_trans_ok : bool;          (* controllable: the device accepts transitions *)
   bh_exit_on_done : option N;  (* controllable: leaves by itself with this code once in DONE *)
-  bh_bad_start : bool          (* controllable: reports ERROR instead of STANDBY at start *)
+  bh_bad_start : bool;         (* controllable: reports ERROR instead of STANDBY at start *)
+  bh_walk_ok : bool            (* controllable: the teardown walk of Kill reaches DONE (false: the device
+                                  acknowledges a teardown step without moving, or refuses it) *)
 }.
 
 Inductive action :=
@@ -302,7 +304,7 @@ Definition ckill (b : beh) (s : cst) : cst * list out :=
   else
     let alive := match c_proc s with PRun => true | _ => false end in
     let in_wait := match c_phase s with CWait => true | _ => false end in
-    let walked := alive && bh_trans_ok b && in_wait in
+    let walked := alive && bh_trans_ok b && bh_walk_ok b && in_wait in
     match c_pending s with
     | Some _ => (mkC (c_phase s) false (c_active s) (c_pending s) KBlocked ToPid (c_proc s) (c_gc s) (c_done s) false, [])
     | None =>
@@ -401,6 +403,53 @@ Fixpoint crun (b : beh) (s : cst) (l : list action) : cst * list out :=
   | [] => (s, [])
   | a :: r => let '(s1, o1) := cstep b s a in
               let '(s2, o2) := crun b s1 r in (s2, o1 ++ o2)
+  end.
+
+(* ====================================================================================== *)
+(* the soft-teardown loop of ControllableTask.Kill                                         *)
+(* ====================================================================================== *)
+(* `for reachedState != "DONE" { cmd := nextTransition(reachedState); Commit; on error, empty event
+   or time-out break; reachedState = newState }`.  The device's answers are an oracle: per request
+   None (transport error / no answer within KILL_TRANSITION_TIMEOUT) or Some (ok, reported state).
+   doTransition (executorcmd/client.go) turns an answer into success only if it is ok AND — flag
+   et_transition_checks_dst, read from the source — the reported state is the destination. *)
+Inductive dstate := DRunning | DConfigured | DStandby | DError | DDone | DOther.
+Definition dstate_eqb (a b : dstate) : bool :=
+  match a, b with
+  | DRunning, DRunning | DConfigured, DConfigured | DStandby, DStandby
+  | DError, DError | DDone, DDone | DOther, DOther => true
+  | _, _ => false
+  end.
+Definition next_dst (s : dstate) : option dstate :=
+  match s with
+  | DRunning => Some DConfigured          (* STOP *)
+  | DConfigured => Some DStandby          (* RESET *)
+  | DStandby | DError => Some DDone       (* EXIT *)
+  | DDone | DOther => None                (* no event: the loop gives up *)
+  end.
+Definition accept_reply (dst : dstate) (r : option (bool * dstate)) : option dstate :=
+  match r with
+  | Some (true, st) => if et_transition_checks_dst then (if dstate_eqb st dst then Some st else None) else Some st
+  | _ => None
+  end.
+(* returns the state the loop ends in and whether it has ended within [fuel] iterations *)
+Fixpoint teardown_walk (fuel : nat) (st : dstate) (replies : nat -> option (bool * dstate)) (k : nat)
+  : dstate * bool :=
+  match st with
+  | DDone => (st, true)
+  | _ =>
+    match fuel with
+    | O => (st, false)
+    | S f =>
+      match next_dst st with
+      | None => (st, true)
+      | Some dst =>
+        match accept_reply dst (replies k) with
+        | None => (st, true)
+        | Some st' => teardown_walk f st' replies (S k)
+        end
+      end
+    end
   end.
 
 (* ====================================================================================== *)
